@@ -9,7 +9,8 @@ Inductive obs13 :=
 | ObsCrash.                     (* any other exception *)
 
 Inductive case_C13 :=
-| CaseSchema (s : schema) (o : obs13)
+| CaseSchema (s : schema) (o : obs13)      (* validate_schema(s) *)
+             (o_structural : obs13)        (* validate_schema(s, enable_resolver_validation=False) *)
 | CaseHistory (s : schema) (ops : list op) (rs : list step_result)
 | CaseSubtype (ts : list type_def) (t u : ty) (b : bool)
 | CaseSig (sg : rsig) (args : list arg_def) (errs : list verr)
@@ -58,12 +59,14 @@ Definition model_C13 (s : schema) : list verr := validate_model s.
 
 Definition agree_C13 (c : case_C13) : bool :=
   match c with
-  | CaseSchema s o =>
-      match model_C13 s, o with
-      | [], ObsAccept => true
-      | (_ :: _) as l, ObsErrors l' => multiset_eqb verr_eqb l l'
-      | _, _ => false
-      end
+  | CaseSchema s o o2 =>
+      let agree l o :=
+        match l, o with
+        | [], ObsAccept => true
+        | (_ :: _) as l, ObsErrors l' => multiset_eqb verr_eqb l l'
+        | _, _ => false
+        end in
+      agree (model_C13 s) o && agree (validate_structural s) o2
   | CaseHistory s ops rs => results_eqb (run (initial s) ops) rs
   | CaseSubtype ts t u b => Bool.eqb (is_subtype_model ts t u) b
   | CaseSig sg args errs calls =>
